@@ -61,11 +61,48 @@ Definition plain_hints (h : hints) : bool :=
 Definition absent_label_case (re_full : string -> string -> bool) (ms : list matcher) (db : database) : bool :=
   existsb (fun m => prom_match_val re_full (m_op m) (m_val m) "" &&
                     existsb (fun s => negb (has_label (t_labels s) (m_name m))) (d_series db)) ms.
+(* ---- processHints judged on the rows: what the engine sees at its evaluation times ----
+   The engine (LookbackDelta 0 in prometheusQueryRangeRouter.go = the 5 min default) asks an instant selector
+   with hints.Start = first evaluation time - 5 min and a range selector with hints.Start = first evaluation
+   time - range; evaluation times advance by hints.Step up to hints.End. *)
+Definition lookback_ms : Z := 300000.
+Fixpoint grid (n : nat) (t step e : Z) : list Z :=
+  match n with O => [] | S n' => if (t <=? e)%Z then t :: grid n' (t + step)%Z step e else [] end.
+Definition opt_Z_eqb (a b : option Z) : bool :=
+  match a, b with Some x, Some y => Z.eqb x y | None, None => true | _, _ => false end.
+Definition all_fps (a b : list row) : list N := nodup N.eq_dec (map r_fp (a ++ b)).
+
+(* 0 = the engine sees the same; 9 = the list reading (bucket_series / range_filter) is not what the statement
+   computes; 10 = instant look-ups differ, evaluation times off the bucket grid; 12 = only a sample older than
+   the look-back shows up after re-stamping; 11 = range windows lose samples, evaluation times off the modulo
+   grid; 4 = differs although the grids agree *)
+Definition hints_verdict (h : hints) (raw impl : list row) : Z :=
+  let fps := all_fps raw impl in
+  if is_instant (h_func h) then
+    let reading_ok := forallb (fun fp => samples_eqb (bucket_series (h_start h) (h_step h) (rows_of fp raw)) (rows_of fp impl)) fps in
+    let times := grid 64 (h_start h + lookback_ms) (h_step h) (h_end h) in
+    let same := forallb (fun fp => forallb (fun T => opt_Z_eqb (visible lookback_ms T (rows_of fp impl)) (visible lookback_ms T (rows_of fp raw))) times) fps in
+    let only_stale := forallb (fun fp => forallb (fun T => match visible lookback_ms T (rows_of fp raw) with
+                                                          | Some v => opt_Z_eqb (visible lookback_ms T (rows_of fp impl)) (Some v)
+                                                          | None => true end) times) fps in
+    if negb reading_ok then 9
+    else if same then 0
+    else if negb (Z.eqb (Z.rem lookback_ms (h_step h)) 0) then 10
+    else if only_stale then 12 else 4
+  else if is_range (h_func h) && (h_range h <? h_step h)%Z then
+    let reading_ok := forallb (fun fp => samples_eqb (range_filter (h_step h) (h_range h) (rows_of fp raw)) (rows_of fp impl)) fps in
+    let times := grid 64 (h_start h + h_range h) (h_step h) (h_end h) in
+    let same := forallb (fun fp => forallb (fun T => samples_eqb (window (h_range h) T (rows_of fp impl)) (window (h_range h) T (rows_of fp raw))) times) fps in
+    if negb reading_ok then 9
+    else if same then 0
+    else if negb (Z.eqb (Z.rem (h_start h + h_range h) (h_step h)) 0) then 11 else 4
+  else 0.
+
 (* verdict codes:
    0 ok;  1 the parse does not render back to the text;  2 the interpreter has no value for the query;
    3 model tree and implementation text mean different row lists;  4 rows differ from the Prometheus
    meaning although no recorded cause applies;  5 .. explained by: absent label accepted by a matcher;
-   7 .. more than 8 matchers (UInt8 shift);  8 no matcher at all *)
+   7 .. more than 8 matchers (UInt8 shift);  8 no matcher at all;  9 .. 12 see hints_verdict *)
 Definition sem_verdict (c : semcase) : Z :=
   let search := tbl_lookup (se_search c) in
   let full := tbl_lookup (se_full c) in
@@ -87,7 +124,14 @@ Definition sem_verdict (c : semcase) : Z :=
                else 4
         end
       else if negb (orows_eqb impl_rows model_rows) then 3
-      else 0
+      else if plain_hints h then 0
+      else
+        (* the same statement without processHints (Step = 0), under the interpreter: the raw rows *)
+        let h0 := {| h_start := h_start h; h_end := h_end h; h_step := 0; h_func := h_func h; h_range := h_range h |} in
+        match eval_prom search (fst (querier_transpile (se_cluster c) "qryn" h0 (se_ms c))) (se_db c) with
+        | None => 2
+        | Some raw => hints_verdict h raw rows
+        end
     end
   end%Z.
 
